@@ -14,11 +14,11 @@ CLAIMED = {
                 note='Trusts openpyxl to write the edited workbook faithfully (a read-back self-check discards runs whose planted constants do not survive the xlsx round trip), the re-translation path itself (functional defects shared by both paths cancel out by design), and the generator bounds (<=3 sheets, <=48 cells, <=30 operations). One recorded finding (whole-column references do not see overrides past the used range) is listed in known_findings.json and matched only after minimisation plus a counterfactual re-run. The minimised plans of the two repaired defects are replayed on every run (regress/).'),
     'C08': dict(engine='execsim', design='4.2',
                 technique='deterministic simulation: seeded query histories over fixed overrides, every response compared with an isolated single query on a pristine executor in a foreign process',
-                text='Overrides are established once (one write per cell), then 6-80 queries from 1-3 logical clients through get_cell/get_cells/get_sheet with every addressing spelling, repeated and permuted, with evaluation failures in the middle and (on some runs) a simulated clock step between two bursts; each response must equal the value of one get_cell on a pristine executor (other process, other hash seed, same instant), get_sheet must have exactly the spec-derived shape, and sizes must be unchanged afterwards.',
+                text='Overrides are established one write per cell - all at once or, on half of the runs, in up to three epochs separated by query bursts - and 6-80 queries are issued from 1-3 logical clients through get_cell/get_cells/get_sheet with every addressing spelling, repeated and permuted, with evaluation failures in the middle and (on some runs) a simulated clock step between two bursts; each response must equal the value of one get_cell on a pristine executor given the overrides in force in one batch (other process, other hash seed, same instant), get_sheet must have exactly the spec-derived shape, and sizes must be unchanged afterwards.',
                 note='Exploration over sampled histories. The isolated reference uses the same generated source text (C09 decides that the text itself is stable). Grid shape is derived from the workbook spec, so the check assumes the reader reports the used range of a dense-origin workbook correctly (C18, not claimed).'),
     'C06': dict(engine='loadsim', design='4.6',
-                technique='deterministic simulation: seeded write/load/clock-jump histories over real files re-stamped from a simulated clock (granularity 1ns..2s), file-loaded executor compared with the class object of the returned text',
-                text='Decides ONLY the clause "behaves the same whether loaded from the written file or used as a class object": 2-4 variants of a generated workbook are translated and written to 1-3 output paths repeatedly, the paths are loaded through Executor.set_executed_class(class_file=...) into fresh executors between clock jumps (forward and backward, inside and across timestamp quanta), other tools leave bytecode-cache entries behind, and every cell of the file-loaded executor must equal the same cell of an executor given the class object exec\'d from the text the parser returned for that write.',
+                technique='deterministic simulation: seeded write/load/clock-jump/chdir/relink histories over real files re-stamped from a simulated clock (granularity 1ns..2s), file-loaded executor compared with the class object of the returned text',
+                text='Decides ONLY the clause "behaves the same whether loaded from the written file or used as a class object": 2-4 variants of a generated workbook are translated and written to 1-3 output paths repeatedly, the paths - spelled absolutely, relative to a working directory that changes, or through a symbolic link that is re-pointed; with distinct names or the same name in several directories - are loaded through Executor.set_executed_class(class_file=...) into fresh executors between clock jumps (forward and backward, inside and across timestamp quanta), other tools leave bytecode-cache entries behind, and every cell of the file-loaded executor must equal the same cell of an executor given the class object exec\'d from the text the parser returned for that write.',
                 note='Totality, foreign exceptions and termination over arbitrary workbooks (the rest of C06) are a quantifier over inputs and are NOT decided here. File timestamps are re-stamped at close from the simulated clock; importlib itself is real. Bytecode writing is enabled at run time (the sandbox exports PYTHONDONTWRITEBYTECODE=1).'),
     'C12': dict(engine='clocksim', design='4.4',
                 technique='deterministic simulation: one translated criteria-matrix workbook evaluated along a seeded timeline of simulated instants/time zones (LD_PRELOAD clock shim) interleaved with set_cells edits of criterion/range cells; every TODAY-free cell must be time-invariant within an override epoch and equal to a pristine executor given the same overrides',
@@ -30,7 +30,7 @@ CLAIMED = {
                 note='The rest of the quantifier of C15 (all (y,m,d) triples in a wide box, all offsets -60..60, all holiday subsets) is an input sweep and is NOT claimed: a defect for dates not reachable from the dashboard goes unseen. Local time is evaluated by an independent POSIX-TZ evaluator cross-checked against libc for the same explicit instant.'),
     'C09': dict(engine='parsersim', design='4.3',
                 technique='deterministic simulation: facade histories of 1-3 client threads under a seeded baton scheduler (sys.settrace line/opcode pre-emption), simulated disk with injected I/O faults, every response compared with a fresh Parser in a pristine foreign process',
-                text='1-3 client threads, each with its own real Parser, share the process-global token tables (uninitialised at the start of every run: fork-per-run from a lane that never parsed) and one simulated disk; each client issues 3-12 facade calls (set path, set / replace / re-pass / clear the entry cell, enable / disable safety, get, write, replace a workbook on disk); the schedule is sequential, operation-level or line-level pre-emption drawn from the run\'s PRNG; 0-2 I/O faults (open failure, ENOSPC/EIO mid-write, error at close, EIO mid-read) and raw read/write caps are injected. Every get must equal, and every write that returns must leave exactly, the text a brand-new Parser produces for the settings in force — computed in another process with another hash seed, cwd and simulated date. Exploration: schedules, histories and fault placements are sampled, not enumerated.',
+                text='1-3 client threads, each with its own real Parser, share the process-global token tables (uninitialised at the start of every run: fork-per-run from a lane that never parsed) and one simulated disk; each client issues 3-12 facade calls (set path, set / replace / re-pass / clear the entry cell, enable / disable safety, get, write, replace a workbook on disk); the schedule is sequential, operation-level or line-level pre-emption (quanta from 1 event to PCT-style rare switches) drawn from the run\'s PRNG; workbooks come from a seeded corpus that covers every translator; 0-2 I/O faults (open failure, ENOSPC/EIO mid-write, error at close, EIO mid-read) and raw read/write caps are injected. Every get must equal, and every write that returns must leave exactly, the text a brand-new Parser produces for the settings in force — computed in another process with another hash seed, cwd and simulated date. Exploration: schedules, histories and fault placements are sampled, not enumerated.',
                 note='Pre-emption granularity is a source line (an opcode in the token-table files on some runs) of excel2pycl/*; code inside openpyxl/dateutil is not pre-empted (it shares no state between clients). The reference runs the same library, so functional defects common to both paths cancel out. Relaxations are listed in DESIGN.md §4.3 (replaced workbook without set_path, fired read fault, workbook replacement is atomic).'),
 }
 
